@@ -25,7 +25,7 @@ EXPLANATION = (
     'request name matches what the server tests; R6 the server loop breaks on close, EOF and '
     'any other receive/decode error and the process ends after run(). Real-process behaviour '
     '(deadlock freedom, OS sockets, time-outs) is NOT decided.'
-    ' Later additions: R1 the unprotected shared fields are a reasoned table - a new field written by one thread context and accessed by another without a common lock is reported until it is examined; guards are read through predicate helper methods, the launch routine is the Popen method plus the private methods that call it unconditionally.')
+    ' Later additions: R1 the unprotected shared fields are a reasoned table - a new field written by one thread context and accessed by another without a common lock is reported until it is examined; guards are read through predicate helper methods, the launch routine is the Popen method plus the private methods that call it unconditionally. R7 the background starter is not a daemon thread (daemon= of its Thread call, .daemon / setDaemon on its handle): interpreter exit waits until the launch is settled, otherwise a server launched but not yet connected is left in accept() for ever.')
 TECHNIQUE = 'static lock-set + check-then-act + who-may-call rules + resolved call-arity check + abstract interpretation of the launch/close protocol on a modelled starter thread and connection'
 
 LOCK = 'self.prepare_lock'
